@@ -1,6 +1,6 @@
 #!/bin/bash
 # usage: run_mutant.sh <patch.diff> <prop> [tier] [seed]  -- apply a seeded change to /repo, run the check, undo
-patch="$1"; prop="$2"; tier="${3:-quick}"; seed="${4:-1}"
+patch="$(realpath "$1")"; prop="$2"; tier="${3:-quick}"; seed="${4:-1}"
 cd /verif
 git -C /repo diff --quiet || { echo "/repo has uncommitted changes"; exit 2; }
 git -C /repo apply "$patch" || { echo "patch does not apply"; exit 2; }
